@@ -78,7 +78,11 @@ func (c *Client) ReadCoils(id byte, coil, count uint16) ([]bool, error) {
 		fmt.Printf("Modbus client Readcoils ID:0x%x resp:%v\n", id, resp)
 	}
 
-	return resp.RespReadBits()
+	if resp.FunctionCode != req.FunctionCode {
+		return []bool{}, errors.New("resp contains wrong function code")
+	}
+
+	return resp.RespReadBitsCount(count)
 }
 
 // WriteSingleCoil is used to read modbus coils
@@ -181,7 +185,7 @@ func (c *Client) ReadDiscreteInputs(id byte, input, count uint16) ([]bool, error
 		return []bool{}, errors.New("resp contains wrong function code")
 	}
 
-	return resp.RespReadBits()
+	return resp.RespReadBitsCount(count)
 }
 
 // ReadHoldingRegs is used to read modbus coils
@@ -231,7 +235,16 @@ func (c *Client) ReadHoldingRegs(id byte, reg, count uint16) ([]uint16, error) {
 		return []uint16{}, errors.New("resp contains wrong function code")
 	}
 
-	return resp.RespReadRegs()
+	regs, err := resp.RespReadRegs()
+	if err != nil {
+		return []uint16{}, err
+	}
+
+	if len(regs) != int(count) {
+		return []uint16{}, errors.New("resp does not contain the number of registers requested")
+	}
+
+	return regs, nil
 }
 
 // ReadInputRegs is used to read modbus coils
@@ -281,7 +294,16 @@ func (c *Client) ReadInputRegs(id byte, reg, count uint16) ([]uint16, error) {
 		return []uint16{}, errors.New("resp contains wrong function code")
 	}
 
-	return resp.RespReadRegs()
+	regs, err := resp.RespReadRegs()
+	if err != nil {
+		return []uint16{}, err
+	}
+
+	if len(regs) != int(count) {
+		return []uint16{}, errors.New("resp does not contain the number of registers requested")
+	}
+
+	return regs, nil
 }
 
 // WriteSingleReg writes to a single holding register
